@@ -84,23 +84,19 @@ func VerifModalities() []string {
 	return r
 }
 
-// VerifFsmRun looks the modality up the way the parser does, creates a fresh
-// evaluator the way startOfAuditPeriod does, feeds the labels through the real
-// processFsmStateChange and returns the result code of every report.
-func VerifFsmRun(modality string, labels []string) (results []int, panicMsg string) {
-	defer func() {
-		if r := recover(); r != nil {
-			panicMsg = fmt.Sprintf("%v", r)
-		}
-	}()
-	f, err := parseAuditWhen(modality)
-	if err != nil {
-		return nil, "lookup: " + err.Error()
-	}
+// VerifFsmRunner holds an audition (logger, channel, stopper) reused across
+// runs; creating a secondary logger per run costs several milliseconds.
+type VerifFsmRunner struct {
+	au      *audition
+	collCh  chan collectorEvent
+	stopper *stop.Stopper
+}
+
+// VerifNewFsmRunner creates a runner.
+func VerifNewFsmRunner() *VerifFsmRunner {
 	ctx := context.Background()
 	stopper := stop.NewStopper()
-	defer stopper.Stop(ctx)
-	collCh := make(chan collectorEvent, len(labels)+4)
+	collCh := make(chan collectorEvent, 4096)
 	rep := &verifReporter{start: time.Now()}
 	au := &audition{
 		r:       rep,
@@ -110,6 +106,31 @@ func VerifFsmRun(modality string, labels []string) (results []int, panicMsg stri
 		res:     &auditionResults{},
 		collCh:  collCh,
 	}
+	return &VerifFsmRunner{au: au, collCh: collCh, stopper: stopper}
+}
+
+// Close stops the runner's stopper.
+func (r *VerifFsmRunner) Close() { r.stopper.Stop(context.Background()) }
+
+// Run looks the modality up the way the parser does, creates a fresh
+// evaluator the way startOfAuditPeriod does, feeds the labels through the real
+// processFsmStateChange and returns the result code of every report.
+func (r *VerifFsmRunner) Run(modality string, labels []string) (results []int, panicMsg string) {
+	defer func() {
+		if rec := recover(); rec != nil {
+			panicMsg = fmt.Sprintf("%v", rec)
+		}
+	}()
+	for len(r.collCh) > 0 {
+		<-r.collCh
+	}
+	f, err := parseAuditWhen(modality)
+	if err != nil {
+		return nil, "lookup: " + err.Error()
+	}
+	ctx := context.Background()
+	au := r.au
+	au.r.(*verifReporter).judged = nil
 	as := &auditorState{}
 	am := &auditor{expectFsm: f}
 	au.startOfAuditPeriod(ctx, "a", as, am)
@@ -119,7 +140,7 @@ func VerifFsmRun(modality string, labels []string) (results []int, panicMsg stri
 			return results, "error: " + err.Error()
 		}
 		select {
-		case cev := <-collCh:
+		case cev := <-r.collCh:
 			results = append(results, int(cev.(*auditionReport).result))
 		default:
 			return results, "no report"
